@@ -21,7 +21,7 @@ ASSUMPTIONS = [
     "for NfFF>=4 the partition asserted is total = light + sum_{h>NfFF} F_h, the one fns.rst defines "
     "(F_charm is then the 'heavylight' part inside light)",
     "tolerance 1e-11 of max(|summands|,|total|) per key: pure re-association of sums",
-    "configurations excluded by construction: polarised CC, polarised N3LO, TMC for gL/g4, N3LO massive NC",
+    "configurations excluded by construction (documented gaps, explicitly rejected by the code): polarised CC, polarised N3LO, TMC for gL/g4",
 ]
 BUDGET = {"quick": {"examples": 1600, "wall": 400}, "thorough": {"examples": 30000, "wall": 2400}}
 MANDATORY = {
